@@ -112,7 +112,7 @@ def seeded(prop, ctx, jobs=8):
     tasks = []
     for d in sorted(os.listdir(sdir)) if os.path.isdir(sdir) else []:
         pf = os.path.join(sdir, d, "patch.diff")
-        if os.path.exists(pf) and (d.startswith(prop + "_") or d.startswith(("r2_" + prop + "_", "r3_" + prop + "_", "r5_" + prop + "_", "r6_" + prop + "_"))):
+        if os.path.exists(pf) and (d.startswith(prop + "_") or d.startswith(("r2_" + prop + "_", "r3_" + prop + "_", "r5_" + prop + "_", "r6_" + prop + "_", "r7_" + prop + "_"))):
             tasks.append((prop, pf))
     res = []
     with ThreadPoolExecutor(max_workers=jobs) as ex:
